@@ -1,17 +1,26 @@
 """C06 — truthiness and short-circuit logic follow the documented table."""
 import wire
-from vlib import Case
+from props import c02
+from vlib import Case, lang_lines
 
 RULE = ("ops `eqhash a b` (Object::is_falsey of both operands) and `un Bang v` through the real VM vs the Lean model; "
         "the spec is the documented falsey table; exhaustive over the representatives of every value kind "
         "(zero/non-zero, empty/non-empty, NaN, -0.0, nested empty containers, closures, builtins, file handles, error objects); "
         "non-trivial = the implementation produced a value")
-ASSUMPTIONS = ["the && / || templates and the if/while/filter positions are covered by the language-level engine (see C02/C05 evidence) once enabled"]
+ASSUMPTIONS = ["every truthiness position of the language (!, &&, ||, if, else-if, while, if-expression) is exercised with a source-level representative of every value kind through the real pipeline (op `eval`), "
+               "the reference semantics (falsey table) as oracle; the filter-pattern position is exercised by C20's end-to-end engine"]
 EXHAUSTIVE = True
-canon = wire.canon_rterr
+def canon(s):
+    return c02.canon(s) if s.startswith(("ok ", "rterr ", "cerr ", "perr")) and " obs=" in s or s.startswith(("cerr", "perr")) else wire.canon_rterr(s)
+
+
+def model_skip(c):
+    return c.line.startswith("eval ")
 
 
 def nontrivial(c):
+    if c.line.startswith("eval "):
+        return c.spec.startswith("m ok")
     return c.impl.startswith(("ok", "eq="))
 
 
@@ -27,8 +36,29 @@ REPS = ([wire.NULL, wire.TRUE, wire.FALSE] + [wire.i(x) for x in (0, 1, -1, wire
         wire.OTHERS)
 
 
+SRC_REPS = ["null", "true", "false", "0", "1", "-1", "0.0", "-0.0", "1.0", "1e-320", "5e-324", "char(0)", "'a'", "'0'", "byte(0)", "byte(1)", "byte(48)",
+            '""', '"a"', '"0"', '" "', "[]", "[[]]", "[null]", "[0]", "map {}", "map {0: 0}", "map {null: null}", "len", "fn() { 1 }", "(1 / 1.0 - 1)", "[1][0] - 1", "str(0)", "chars(\"\")"]
+
+
+def position_program(v, w):
+    return ("let obs = [];\nfn probe(x) { push(obs, x); x }\n"
+            f"let v = {v};\nlet w = {w};\n"
+            "push(obs, !v);\npush(obs, !!v);\n"
+            "let r1 = v && probe(1);\nlet r2 = v || probe(2);\nlet r3 = v && w;\nlet r4 = v || w;\nlet r5 = (v && w) || probe(3);\n"
+            "push(obs, [r1, r2, r3, r4, r5]);\n"
+            "if v { push(obs, 10); } else { push(obs, 11); }\n"
+            "if w { push(obs, 12); } else if v { push(obs, 13); } else { push(obs, 14); }\n"
+            "let n = 0;\nwhile v { n = n + 1; if n > 0 { break; } }\npush(obs, n);\n"
+            "let k = 0;\nwhile !v && k < 2 { k = k + 1; }\npush(obs, k);\n"
+            "push(obs, if v { 1 } else { 2 });\n"
+            "if v && w { 20 } else { 21 }\n")
+
+
 def cases(ctx):
     out = []
+    srcs = [position_program(v, w) for v in SRC_REPS for w in SRC_REPS]
+    for l, s in zip(lang_lines(ctx, srcs), srcs):
+        out.append(Case(l, ("positions",), extra={"src": s}))
     for v in REPS:
         out.append(Case(f"un Bang {v}", ("bang",)))
         out.append(Case(f"eqhash {v} {v}", ("is_falsey",)))
